@@ -5,24 +5,24 @@ import numpy as np
 from . import core, meta as M, suite_meta as SM
 
 THEOREMS = {
-    'C03': ['Source.get_valid_classes_is_model', 'Source.get_valid_classes_refuses', 'Source.get_multiplicity_is_model', 'Source.translator_complete_meta', 'Source.is_constant_is_model', 'Source.is_repeating_is_model', 'Source.get_const_period_is_model', 'Source.subset_shape_is_model', 'Source.merge_shape_is_model', 'C03.merge_lookup_slice', 'C03.merge_lookup_time', 'C03.merge_lookup_vector',
+    'C03': ['C03.merge_lookup_slice', 'C03.merge_lookup_time', 'C03.merge_lookup_vector',
             'C03.merge_nonslice', 'C03.merge_valid_slice', 'C03.merge_valid_time',
             'C03.reclassify_lossless', 'C03.changed_class_lossless',
             'C03.insert_loops_total', 'C03.merge_slice_total', 'C03.merge_time_total', 'C03.merge_vector_total',
             'C03.merge_data_stacked', 'C03.merge_data_refuses', 'C03.merge_accept_iff',
             'C03.merge_refuses_orientation', 'C03.merge_refuses_position', 'C03.merge_affine_consistent'],
-    'C04': ['Source.get_valid_classes_is_model', 'Source.get_valid_classes_refuses', 'Source.get_multiplicity_is_model', 'Source.translator_complete_meta', 'Source.is_constant_is_model', 'Source.is_repeating_is_model', 'Source.get_const_period_is_model', 'Source.subset_shape_is_model', 'Source.merge_shape_is_model', 'C04.subset_lookup_slice_raw', 'C04.subset_lookup_time_raw', 'C04.subset_lookup_vector_raw',
+    'C04': ['C04.subset_lookup_slice_raw', 'C04.subset_lookup_time_raw', 'C04.subset_lookup_vector_raw',
             'C04.subset_slice', 'C04.subset_time4', 'C04.subset_vector', 'C04.simplify_keeps_lookup',
             'C04.simplify_total', 'C04.subset_slice_total', 'C04.subset_time_total', 'C04.subset_vector_total', 'C04.subset_time5',
             'C04.split_data_hyperplane', 'C04.split_piece_count', 'C04.split_piece_order', 'C04.split_affine',
             'C04.split_affine_voxel', 'C04.split_piece_header'],
-    'C05': ['Source.get_valid_classes_is_model', 'Source.get_valid_classes_refuses', 'Source.get_multiplicity_is_model', 'Source.translator_complete_meta', 'Source.is_constant_is_model', 'Source.is_repeating_is_model', 'Source.get_const_period_is_model', 'Source.subset_shape_is_model', 'Source.merge_shape_is_model', 'C05.split_merge_slice_id', 'C05.split_merge_time_id', 'C05.split_merge_vector_id',
+    'C05': ['C05.split_merge_slice_id', 'C05.split_merge_time_id', 'C05.split_merge_vector_id',
             'C05.canon_class_unique', 'C05.split_merge_slice_total', 'C05.split_merge_time_total',
             'C05.split_merge_vector_total', 'C05.merge_split_data', 'C05.merge_split_affine'],
-    'C06': ['Source.get_valid_classes_is_model', 'Source.get_valid_classes_refuses', 'Source.get_multiplicity_is_model', 'Source.translator_complete_meta', 'Source.is_constant_is_model', 'Source.is_repeating_is_model', 'Source.get_const_period_is_model', 'Source.subset_shape_is_model', 'Source.merge_shape_is_model', 'C06.simplify_lookup', 'C06.simplify_valid', 'C06.simplify_gslices_minimal',
+    'C06': ['C06.simplify_lookup', 'C06.simplify_valid', 'C06.simplify_gslices_minimal',
             'C06.merge_slice_minimal', 'C06.merge_time_minimal', 'C06.merge_vector_minimal',
             'C06.convert_canonical'],
-    'C13': ['Source.get_valid_classes_is_model', 'Source.get_valid_classes_refuses', 'Source.get_multiplicity_is_model', 'Source.translator_complete_meta', 'Source.is_constant_is_model', 'Source.is_repeating_is_model', 'Source.get_const_period_is_model', 'Source.subset_shape_is_model', 'Source.merge_shape_is_model', 'C13.putKey_other', 'C13.putKey_self', 'C13.foldl_putKey_key', 'C13.insertWith_key',
+    'C13': ['C13.putKey_other', 'C13.putKey_self', 'C13.foldl_putKey_key', 'C13.insertWith_key',
             'C13.filterMeta_key', 'C13.merge_factorises', 'C13.subset_factorises'],
 }
 
